@@ -52,6 +52,12 @@ func (p *Path) unop(ins *ssa.UnOp, x Value) Value {
 
 func (p *Path) binop(op token.Token, xt types.Type, x, y Value, yt types.Type) Value {
 	tb := p.tb
+	if _, ok := x.(SFloat); ok {
+		return p.sfloatBinop(op, x, y)
+	}
+	if _, ok := y.(SFloat); ok {
+		return p.sfloatBinop(op, x, y)
+	}
 	switch op {
 	case token.EQL:
 		return p.equal(x, y)
@@ -203,7 +209,12 @@ func (p *Path) binop(op token.Token, xt types.Type, x, y Value, yt types.Type) V
 				return tb.Sle(z, c)
 			}
 		}
+	case SFloat:
+		return p.sfloatBinop(op, xv, y)
 	case Float:
+		if _, ok := y.(SFloat); ok {
+			return p.sfloatBinop(op, xv, y)
+		}
 		yv := y.(Float)
 		switch op {
 		case token.ADD:
@@ -281,9 +292,18 @@ func (p *Path) conv(dst, src types.Type, x Value) Value {
 				return Float{float64(float32(xv.f))}
 			}
 			return xv
+		case SFloat:
+			if b, ok := du.(*types.Basic); ok && b.Kind() == types.Float32 {
+				panic(p.unsupported("symbolic float32"))
+			}
+			return xv
 		case *Term:
 			if !xv.IsConst() {
-				panic(p.unsupported("conversion of symbolic integer to float"))
+				if b, ok := du.(*types.Basic); ok && b.Kind() == types.Float32 {
+					panic(p.unsupported("symbolic float32"))
+				}
+				sw, ssigned, _ := intInfo(su)
+				return p.intToSFloat(xv, sw, ssigned)
 			}
 			_, signed, _ := intInfo(su)
 			if xv.sort.K == KInt {
